@@ -190,6 +190,12 @@ inductive Res where
   | err                     -- the operation reported an error
   deriving DecidableEq, Repr
 
+/-- `State.Unmarshal` of a stream that breaks off inside its entry number `k` (0-based), after 6b95ff7:
+    the first entry is decoded before anything is deleted, so a stream whose very first entry is
+    broken leaves the target as it was; otherwise the target holds the `k` whole entries. Always an error. -/
+def unmarshalCut (prior : PinMap) (stream : List Pin) (k : Nat) : Res × PinMap :=
+  if k = 0 then (.err, prior) else (.err, putAll [] (stream.take k))
+
 /-- `importState` onto a state: decode and add one by one, stop at the first failure. -/
 def importInto : PinMap → List JPin → Option PinMap
   | m, [] => some m
